@@ -116,9 +116,10 @@ Qed.
 
 Theorem circuit_methods_okb_sound : forall ms, circuit_methods_okb ms = true -> methods_ok ms.
 Proof.
-  intros ms H. unfold circuit_methods_okb in H. apply andb_true_iff in H. destruct H as [HM HE]. split.
+  intros ms H. unfold circuit_methods_okb in H. apply andb_true_iff in H. destruct H as [H HN].
+  apply andb_true_iff in H. destruct H as [HM HE]. split; [|split].
   - intros m Hm Hc. rewrite forallb_forall in HM. specialize (HM m Hm). unfold method_okb in HM. rewrite Hc in HM.
-    cbv zeta in HM. apply andb_true_iff in HM. destruct HM as [H1 H23]. split; [|split; [|split]].
+    cbv zeta in HM. apply andb_true_iff in HM. destruct HM as [H1 H23]. split; [|split; [|split; [|split; [|split]]]].
     + intros [w [Hw Hs]]. apply orb_true_iff in H1. destruct H1 as [H1 | H1].
       * exfalso. apply negb_true_iff in H1.
         assert (Ht : existsb (fun w => mem (fst w) structural_fields) (m_writes m) = true).
@@ -138,12 +139,28 @@ Proof.
     + intros He Hns w Hw Hpw. destruct (lookup_guarded (m_name m)) as [g|] eqn:El.
       * exfalso. apply Hns. apply lookup_guarded_Some in El. apply in_map_iff. exists (m_name m, g). split; [reflexivity | exact El].
       * apply andb_true_iff in H23. destruct H23 as [_ H3]. apply mem_In in He. rewrite He in H3.
-        apply andb_true_iff in H3. destruct H3 as [_ HG]. unfold guard_before_pass in HG. rewrite forallb_forall in HG.
+        apply andb_true_iff in H3. destruct H3 as [H3 _]. apply andb_true_iff in H3. destruct H3 as [_ HG].
+        unfold guard_before_pass in HG. rewrite forallb_forall in HG.
         specialize (HG w Hw). rewrite Hpw in HG. cbn [negb orb] in HG. apply existsb_exists in HG.
         destruct HG as [g [Hg Hb]]. apply andb_true_iff in Hb. destruct Hb as [Hn Hl].
         exists g. split; [exact Hg|]. split; [apply String.eqb_eq; exact Hn | apply Nat.ltb_lt; exact Hl].
+    + intros He Hns w Hw. destruct (lookup_guarded (m_name m)) as [g|] eqn:El.
+      * exfalso. apply Hns. apply lookup_guarded_Some in El. apply in_map_iff. exists (m_name m, g). split; [reflexivity | exact El].
+      * apply andb_true_iff in H23. destruct H23 as [_ H3]. apply mem_In in He. rewrite He in H3.
+        apply andb_true_iff in H3. destruct H3 as [H3 _]. apply andb_true_iff in H3. destruct H3 as [HW _].
+        rewrite forallb_forall in HW. specialize (HW w Hw). apply orb_true_iff in HW. destruct HW as [HW | HW].
+        -- left. apply String.eqb_eq. exact HW.
+        -- right. exact HW.
+    + intros He Hns c Hc'. destruct (lookup_guarded (m_name m)) as [g|] eqn:El.
+      * exfalso. apply Hns. apply lookup_guarded_Some in El. apply in_map_iff. exists (m_name m, g). split; [reflexivity | exact El].
+      * apply andb_true_iff in H23. destruct H23 as [_ H3]. apply mem_In in He. rewrite He in H3.
+        apply andb_true_iff in H3. destruct H3 as [_ HC]. rewrite forallb_forall in HC. apply mem_In. apply HC. exact Hc'.
   - intros p Hp. rewrite forallb_forall in HE. specialize (HE p Hp). apply existsb_exists in HE.
     destruct HE as [m [Hm Hb]]. apply andb_true_iff in Hb. destruct Hb as [Hb Hc]. apply andb_true_iff in Hb.
+    destruct Hb as [Hn Hpub]. exists m. split; [exact Hm|]. split; [apply String.eqb_eq; exact Hn|].
+    split; [exact Hpub | apply negb_true_iff; exact Hc].
+  - intros n Hn'. rewrite forallb_forall in HN. specialize (HN n Hn'). apply existsb_exists in HN.
+    destruct HN as [m [Hm Hb]]. apply andb_true_iff in Hb. destruct Hb as [Hb Hc]. apply andb_true_iff in Hb.
     destruct Hb as [Hn Hpub]. exists m. split; [exact Hm|]. split; [apply String.eqb_eq; exact Hn|].
     split; [exact Hpub | apply negb_true_iff; exact Hc].
 Qed.
@@ -156,8 +173,15 @@ Proof.
 Qed.
 
 (* the rule is not vacuous *)
+Definition ex_entries : list cmethod :=
+  [mkM "placeGlobal" true false 0 [("@raii:isInUse_", 12); ("@pass:GlobalPlacer::place", 13)] [];
+   mkM "placeGlobal" true false 0 [] ["placeGlobal"];
+   mkM "legalize" true false 0 [("@raii:isInUse_", 12); ("@pass:DetailedPlacer::legalize", 13)] [];
+   mkM "placeDetailed" true false 0 [("@raii:isInUse_", 12); ("@pass:DetailedPlacer::place", 13)] [];
+   mkM "place" true false 0 [] ["placeDetailed"; "placeGlobal"]].
 Definition ex_methods : list cmethod :=
-  map (fun p : string * bool => mkM (fst p) true false (if snd p then 10%nat else 0%nat) [(("f_" ++ fst p)%string, 20%nat)] []) modelled_setters.
+  (ex_entries ++
+   map (fun p : string * bool => mkM (fst p) true false (if snd p then 10%nat else 0%nat) [(("f_" ++ fst p)%string, 20%nat)] []) modelled_setters)%list.
 Example methods_rule_discriminates :
   circuit_methods_okb ex_methods = true /\
   (* a guarded setter that lost its guard *)
@@ -171,8 +195,16 @@ Example methods_rule_discriminates :
   (* an entry point writing something else than the in-use flag *)
   circuit_methods_okb (mkM "legalize" true false 0 [("cellX_", 20)] [] :: ex_methods) = false /\
   (* an entry point that hands the circuit on BEFORE taking the in-use flag *)
-  circuit_methods_okb (mkM "placeDetailed" true false 0 [("@pass:DetailedPlacer::legalize", 10); ("isInUse_", 12); ("@pass:DetailedPlacer::place", 13)] [] :: ex_methods) = false /\
-  circuit_methods_okb (mkM "placeDetailed" true false 0 [("isInUse_", 12); ("@pass:DetailedPlacer::place", 13)] [] :: ex_methods) = true /\
+  circuit_methods_okb (mkM "placeDetailed" true false 0 [("@pass:DetailedPlacer::legalize", 10); ("@raii:isInUse_", 12); ("@pass:DetailedPlacer::place", 13)] [] :: ex_methods) = false /\
+  circuit_methods_okb (mkM "placeDetailed" true false 0 [("@raii:isInUse_", 12); ("@pass:DetailedPlacer::place", 13)] [] :: ex_methods) = true /\
+  (* an entry point that marks the circuit BY HAND (direct assignments to the flag: no exception path) -- around calls of other entry
+     points (seeded defect C10-10, inline place(effort)) or before handing the circuit on *)
+  circuit_methods_okb (mkM "place" true false 0 [("isInUse_", 970); ("isInUse_", 973)] ["placeDetailed"; "placeGlobal"] :: ex_methods) = false /\
+  circuit_methods_okb (mkM "placeDetailed" true false 0 [("isInUse_", 12); ("@pass:DetailedPlacer::place", 13); ("isInUse_", 14)] [] :: ex_methods) = false /\
+  (* an entry point that calls a member function which is not an entry point *)
+  circuit_methods_okb (mkM "place" true false 0 [] ["placeGlobal"; "setRows"] :: ex_methods) = false /\
+  (* a table that lost an entry point (inline member functions of the header not scanned) *)
+  circuit_methods_okb (filter (fun m => negb (String.eqb (m_name m) "place")) ex_methods) = false /\
   (* a const member function is not constrained (const-correctness is trusted) *)
   circuit_methods_okb (mkM "hpwl" true true 0 [] [] :: ex_methods) = true.
 Proof. vm_compute. repeat split. Qed.
